@@ -24,22 +24,27 @@ INVARIANTS = {
 }
 
 ASSUMPTIONS = [
-    "native executor only (no wasm); in-memory on-chain Database; scripted relayer view; forbid_fake_coins = true",
-    "transaction kinds: script (ret/rvrt/panic/out-of-gas, contract calls writing slots and forwarding coins, "
-    "contract->variable-output transfers, message-out) and create; signed coin / message inputs; no predicates, "
-    "no upgrade/upload/blob",
+    "native executor only (no wasm); the storage behind the executor is the harness's plain in-memory key-value "
+    "store (KeyValueInspect/HistoricalView views, importer-style commit of Changes + FuelBlocks), not fuel-core's "
+    "Database; scripted relayer view; forbid_fake_coins = true",
+    "transaction kinds: script (ret/rvrt/panic/out-of-gas/gas-burning loop, contract calls writing slots and "
+    "forwarding coins, revert inside a nested call, contract->variable-output and script->variable-output "
+    "transfers, message-out) and create; signed coin / message-coin / retryable message-data inputs; no "
+    "predicates, no upgrade/upload/blob",
     "gas, fees, sizes, change amounts and digests are logged by the implementation and bound in the trace spec; "
     "TLC checks the relations between them, not VM arithmetic",
-    "MC bounds: 1 genesis table (3 coins, 2 messages, 1+1 contracts, 9 descriptors, DA heights 0..2), 2 blocks, "
-    "<= 2 source transactions per block; deeper histories by simulation and the seeded driver",
-    "the transaction-count limit (65534) is not reached",
+    "MC bounds (quick): 1 genesis table (3 coins, 2 messages, 1+1 contracts, 11 descriptors of which 6 offered, "
+    "DA heights 0..2, relayed message + valid/invalid forced transaction), 2 blocks, <= 2 source transactions "
+    "per block; deeper histories by simulation (4 blocks x 3) and the seeded driver (6-8 blocks)",
+    "the transaction-count limit (65534) is not reached; forced-transaction validity is decided by the generator "
+    "(junk bytes / mint / too low max_gas claim are invalid)",
 ]
 
 
-def sim_walks(tier, wd):
+def sim_walks(tier, wd, tag="x"):
     """B2: behaviours of Sim_Exec as harness walks (deduplicated)."""
     num = 12 if tier == "quick" else 150
-    r = vlib.require_clean(vlib.tlc("MC_Exec", "Sim_Exec.cfg", name="Sim_Exec", workers=4, simulate=num, depth=60,
+    r = vlib.require_clean(vlib.tlc("MC_Exec", "Sim_Exec.cfg", name="Sim_Exec_" + tag, workers=4, simulate=num, depth=60,
                                     timeout=900), "Sim_Exec")
     if r.violated:
         vlib.log("Sim_Exec: model violates %s; the implementation trace decides" % r.violated)
@@ -78,7 +83,20 @@ def key_fn(lines, names):
             parts.append("Tamper(%s:%s)" % (e["t"]["kind"], e["t"]["res"]))
         elif ev in ("ProduceEnd", "Commit", "Mint", "Abort"):
             parts.append(ev)
-    return "%s :: %s" % (",".join(sorted(set(names))), " ".join(parts))
+    tags = []
+    if "Limits" in names:
+        # which limit: recomputed from the logged numbers only to make the key specific
+        setup = [e for e in evs if e.get("ev") == "Setup"]
+        end = [e for e in evs[last_begin:] if e.get("ev") == "ProduceEnd"]
+        if setup and end:
+            c, p = setup[-1]["cfg"], end[-1]["p"]
+            if sum(p["sizes"]) > c["sizeLimit"]:
+                tags.append("size")
+            if sum(s["gas"] for s in p["statuses"]) > c["gasLimit"]:
+                tags.append("gas")
+            if len(p["txs"]) - 1 > c["maxTx"]:
+                tags.append("count")
+    return "%s :: [%s] %s" % (",".join(sorted(set(names))), ",".join(tags), " ".join(parts))
 
 
 def split_file(path, parts, wd, tag):
@@ -104,14 +122,15 @@ def run(rep, tier, args, prop):
         vlib.cargo_build("h-exec")
         rep.judge_trace("Trace_Exec", cfg, args.replay, name=prop + "-replay", key_fn=key_fn)
         return
-    mc = rep.model_check("MC_Exec", "MC_Exec_%s.cfg" % prop, name="MC_Exec_" + prop, workers=8,
+    mc = rep.model_check("MC_Exec", "MC_Exec_%s%s.cfg" % (prop, "" if tier == "quick" else "_thorough"),
+                         name="MC_Exec_" + prop, workers=8,
                          coverage=(tier == "thorough"), timeout=1500)
     if mc.violated:
         vlib.log("model violates %s; the implementation trace decides" % mc.violated)
     hbin = os.path.join(vlib.cargo_build("h-exec"), "h-exec")
     wd = vlib.workdir(prop)
     # B2
-    wp, walks, sim = sim_walks(tier, wd)
+    wp, walks, sim = sim_walks(tier, wd, prop)
     rep.add_mc(sim, "Sim_Exec")
     t2 = os.path.join(wd, "trace-b2.ndjson")
     vlib.run_harness(hbin, ["run", "--walks", wp, "--out", t2])
@@ -120,6 +139,15 @@ def run(rep, tier, args, prop):
     n, blocks = (40, 6) if tier == "quick" else (600, 8)
     vlib.run_harness(hbin, ["random", "--walks", n, "--blocks", blocks, "--out", t3])
     files = split_file(t2, 2 if tier == "quick" else 6, wd, "b2") + split_file(t3, 4 if tier == "quick" else 10, wd, "b3")
+    if prop == "C03":
+        # sources that ignore the `size` argument of next(): worlds with a small block_transaction_size_limit,
+        # kept in their own files (see known_findings.d/C03.json)
+        t3s = os.path.join(wd, "trace-b3-smallsize.ndjson")
+        ns = 6 if tier == "quick" else 40
+        vlib.run_harness(hbin, ["random", "--walks", ns, "--blocks", 5, "--small-size", 1, "--out", t3s],
+                         env={"VERIF_SEED": vlib.seed() + 7777})
+        files += split_file(t3s, 2 if tier == "quick" else 8, wd, "b3s")
+        rep.extra["b3_small_size_walks"] = ns
     for w in vlib.split_trace(t2) + vlib.split_trace(t3):
         outcomes = [vlib.canon({k: v for k, v in json.loads(x).items() if k in ("ev", "id")}) + json.loads(x).get("r", {}).get("res", "")
                     for x in w[2:]]
@@ -133,7 +161,8 @@ def run(rep, tier, args, prop):
     rep.extra["trace_stats"] = stats
 
     def one(i):
-        return rep.judge_trace("Trace_Exec", cfg, files[i], name="%s-%d" % (prop, i), key_fn=key_fn, timeout=3000)
+        return rep.judge_trace("Trace_Exec", cfg, files[i], name="%s-%d" % (prop, i), key_fn=key_fn, timeout=3000,
+                               max_divergent=40 if "b3s-" in files[i] else 3)
 
     with ThreadPoolExecutor(max_workers=6) as ex:
         list(ex.map(one, range(len(files))))
